@@ -255,6 +255,20 @@ func (p *Proxy) handleLoop(conn net.Conn) {
 		return
 	}
 
+	// When a CONNECT tunnel is upgraded for MITM the session's connection
+	// becomes a wrapper of the accepted one (a tls.Conn, itself wrapped in a
+	// trafficshape.Conn on a shaped listener). That wrapper is created here, on
+	// behalf of this connection, and ends with it: closing it releases what it
+	// owns (the traffic shaping buckets made for it) and sends the TLS
+	// close_notify before the deferred conn.Close above closes the socket.
+	// A hijacked connection is left alone: it was handed over to the hijacker
+	// as it is, and nothing more may be written to it.
+	defer func() {
+		if cur, _ := s.connection(); cur != nil && cur != conn && !s.Hijacked() {
+			cur.Close()
+		}
+	}()
+
 	for {
 		deadline := time.Now().Add(p.timeout)
 		conn.SetDeadline(deadline)
